@@ -62,6 +62,7 @@ type Mutant struct {
 	Text  string   `json:"text"`
 	Kinds []string `json:"kinds"`
 	Pos   [][]int  `json:"pos"` // line, column of every token
+	Lens  []int    `json:"lens"` // length of every token in characters (tokens do not span lines)
 	P     ErrObs   `json:"p"`   // parser.Parse (syntax only)
 	A     ErrObs   `json:"a"`   // ast.Parse
 	S     ErrObs   `json:"s"`   // spec.Parse (syntax + semantics)
@@ -80,10 +81,11 @@ func runMutant(id, mut string, toks []PTok) Mutant {
 		ts[i].End = ts[i].K == ";"
 	}
 	text := layout(ts, lead, " ", "\n")
-	m := Mutant{ID: id, Mut: mut, Text: text, Kinds: []string{}, Pos: [][]int{}}
+	m := Mutant{ID: id, Mut: mut, Text: text, Kinds: []string{}, Pos: [][]int{}, Lens: []int{}}
 	for _, t := range ts {
 		m.Kinds = append(m.Kinds, t.K)
 		m.Pos = append(m.Pos, []int{t.Ln, t.Col})
+		m.Lens = append(m.Lens, len([]rune(t.Src)))
 	}
 	m.P = observe(func() error {
 		p, err := ebnfparser.New("t.ebnf", strings.NewReader(text))
